@@ -97,13 +97,13 @@ type Result struct {
 	clamp uint64
 	Reach map[mrepo.ID]bool
 	// census
-	Commits, Trees, Blobs, Tags            N
+	Commits, Trees, Blobs, Tags                    N
 	CommitBytes, TreeBytes, BlobBytes, TreeEntries N
-	Max      [NMetrics]N
-	Witness  [NMetrics]map[mrepo.ID]bool // objects attaining Max (empty if Max is 0 and no object of the kind)
-	Depth    map[mrepo.ID]N              // per commit: longest chain ending there
-	TagDepth map[mrepo.ID]N
-	Exp      map[mrepo.ID]Expansion
+	Max                                            [NMetrics]N
+	Witness                                        [NMetrics]map[mrepo.ID]bool // objects attaining Max (empty if Max is 0 and no object of the kind)
+	Depth                                          map[mrepo.ID]N              // per commit: longest chain ending there
+	TagDepth                                       map[mrepo.ID]N
+	Exp                                            map[mrepo.ID]Expansion
 }
 
 // Compute evaluates everything for the objects reachable from roots.
